@@ -1,6 +1,9 @@
 import Lean.Data.Json
 import Emboss.Model.Names
 import Emboss.Model.CppInt
+import Emboss.Model.StaticAsserts
+import Emboss.Model.EnableIfs
+import Emboss.Generated.CppReserved
 import Driver.Util
 open Emboss.Names Emboss.CppInt Driver
 open Lean (Json toJson)
@@ -11,6 +14,10 @@ open Lean (Json toJson)
 * `NS <json scope>` → clashes among the declarations of one namespace scope
 * `RENDER <int>` → `_render_integer` and what the text denotes
 * `EVAL <s|u> <bits> <neg> <mag> <U> <LL> <m1>` → value of a parsed literal
+* `DISTINCT <json struct>` → does `_verify_generated_field_names_are_distinct` pass
+* `NSV <json string>` → `_verify_namespace_attribute` verdict + `_get_namespace_components`
+* `OP <lo>:<hi> …` → front end's mixed-signedness rule and the back end's `IntermediateT`
+* `UNIT <0|1>` → `kAddressableUnitSize` of an array in a struct (0) / bits (1), enabled overloads
 * `IDENT <json string>` → `EmbossReservedVirtual…View` / `EmbossReservedValidatorFor…` of a field name
 -/
 
@@ -44,6 +51,27 @@ def handleNs (j : Json) : Except String Json := do
   let o ← if oj.isNull then pure none else some <$> getStruct oj
   pure (clashesJson (clashes (namespaceScope { structs := ss, enums := es, owner := o, traits := t })))
 
+def namesJson (l : List Name) : Json := Json.arr (l.map (fun n => Json.str (String.ofList n))).toArray
+
+def nsvJson (text : String) : Json :=
+  match verifyNamespace Emboss.Generated.cppReservedWords text.toList with
+  | .ok cs => Json.mkObj [("verdict", "ok"), ("components", namesJson cs)]
+  | .empty => Json.mkObj [("verdict", "empty")]
+  | .global => Json.mkObj [("verdict", "global")]
+  | .invalid => Json.mkObj [("verdict", "invalid")]
+  | .reserved ws => Json.mkObj [("verdict", "reserved"), ("words", namesJson ws)]
+
+def parseClause (t : String) : Option (Int × Int) :=
+  match t.splitOn ":" with
+  | [a, b] => do pure ((← a.toInt?), (← b.toInt?))
+  | _ => none
+
+def opAnswer (cl : List (Int × Int)) : String :=
+  (if Emboss.StaticAsserts.frontAcceptsOp cl then "accept " else "reject ") ++
+  (match Emboss.StaticAsserts.opIntermediate cl with
+   | some t => t.toString
+   | none => "None")
+
 def bit (s : String) : Option Bool :=
   if s == "1" then some true else if s == "0" then some false else none
 
@@ -66,6 +94,26 @@ def handle (line : String) : String :=
     | .ok j => match handleNs j with
       | .error _ => "bad-op"
       | .ok r => r.compress
+  | "DISTINCT" :: rest =>
+    match Json.parse (" ".intercalate rest) with
+    | .error _ => "bad-op"
+    | .ok j => match getStruct j with
+      | .error _ => "bad-op"
+      | .ok st => toString (fieldNamesDistinct st.fields)
+  | "NSV" :: rest =>
+    match Json.parse (" ".intercalate rest) with
+    | .ok (Json.str t) => (nsvJson t).compress
+    | _ => "bad-op"
+  | "OP" :: rest =>
+    match rest.mapM parseClause with
+    | some cl => if cl.isEmpty then "bad-op" else opAnswer cl
+    | none => "bad-op"
+  | ["UNIT", b] =>
+    match bit b with
+    | some isBits =>
+      let u := Emboss.EnableIfs.arrayUnit isBits
+      toString u ++ " " ++ toString (Emboss.EnableIfs.sizeOverloads u).1 ++ " " ++ toString (Emboss.EnableIfs.sizeOverloads u).2
+    | none => "bad-op"
   | "IDENT" :: rest =>
     match Json.parse (" ".intercalate rest) with
     | .ok (Json.str n) =>
